@@ -26,6 +26,10 @@ def run_family(prop: str, which: str, argv: List[str], doms: str, nontrivial, ru
         res = rb.record_domain(inputs, d, jobs=args.jobs, shards=args.jobs, stages=True, hook=hook)
         verdicts = evaluate(res, which, args.jobs)
         account(rep, res, verdicts, nontrivial, rule, inputs)
+        if prop in ("C03", "C05") and not args.replay:
+            from . import designfam
+
+            designfam.attach(rep, prop, args.tier, d, args.jobs)
     finally:
         tlc.cleanup(d)
     rep.assumptions += [
